@@ -113,6 +113,13 @@ def rInt : Except Err Int → String
   | .ok d => s!"ok {d}"
   | .error e => rErr e
 
+/-- a parsed tree goes through the PUBLIC functions (depth guard of `_subtree_helper` included) as the Python value it spells -/
+def pyOf (t : Tree) : PyVal := t.toPy true 1
+
+def outPubT (sec : Option Bytes) : Option Tree → Except Err (Bytes × Nat)
+  | some t => outputPubkeyPy ops TH sec (pyOf t)
+  | none => outputPubkey ops TH sec none
+
 def handle (toks : List String) : String :=
   match Btc.hashOp toks with
   | some r => r
@@ -130,14 +137,12 @@ def handle (toks : List String) : String :=
     s!"{Gen.Taproot.LEAF_MASK} {Gen.Taproot.PARITY_MASK} {toHex numsSec}"
   | ["tree", t] =>
     match tree? t with
-    | some t =>
-      let (ls, r) := treeHelper TH t
-      s!"ok {toHex r} " ++ "|".intercalate (ls.map fun ((v, s), p) => s!"{v}:{toHex s}:{toHex p}")
+    | some t => rTree (treeHelperPy TH (pyOf t))
     | none => "bad-op"
   | ["p2trspk", sec, t] =>
     match optHex? sec, optTree? t with
     | some sec, some t =>
-      match scriptPubKeyP2tr ops TH sec t with
+      match (outPubT sec t).map fun r => p2trScript r.1 with
       | .ok spk => s!"ok {toHex spk}"
       | .error e => rErr e
     | _, _ => "bad-op"
@@ -150,6 +155,7 @@ def handle (toks : List String) : String :=
   | ["pathof", t, i] =>
     match tree? t, i.toNat? with
     | some t, some i =>
+      if t.depth > Gen.Taproot.MAX_TREE_DEPTH then "err deep" else
       match t.positions[i]? with
       | none => "err index"
       | some pos =>
@@ -188,7 +194,7 @@ def handle (toks : List String) : String :=
     | _, _ => "bad-op"
   | ["outpub", sec, t] =>
     match optHex? sec, optTree? t with
-    | some sec, some t => rKey (outputPubkey ops TH sec t)
+    | some sec, some t => rKey (outPubT sec t)
     | _, _ => "bad-op"
   | ["outpubroot", x, r] =>
     match fromHex? x, fromHex? r with
@@ -196,7 +202,8 @@ def handle (toks : List String) : String :=
     | _, _ => "bad-op"
   | ["outprv", d, t] =>
     match parseInt? d, optTree? t with
-    | some d, some t => rInt (outputPrvkey ops TH d t)
+    | some d, some (some t) => rInt (outputPrvkeyPy ops TH d (pyOf t))
+    | some d, some none => rInt (outputPrvkey ops TH d none)
     | _, _ => "bad-op"
   | ["outprvroot", d, r] =>
     match parseInt? d, fromHex? r with
@@ -206,7 +213,7 @@ def handle (toks : List String) : String :=
   | ["iss", sec, t, i] =>
     match optHex? sec, tree? t, parseInt? i with
     | some sec, some t, some i =>
-      match inputScriptSig ops TH sec t i with
+      match inputScriptSigPy ops TH sec (pyOf t) i with
       | .ok (s, c) => s!"ok {toHex s} {toHex c}"
       | .error e => rErr e
     | _, _, _ => "bad-op"
